@@ -176,6 +176,11 @@ func (c *Check) Finish(verifDir, tier string, seed int64, t0 time.Time, kf *Know
 	for _, r := range rs {
 		fmt.Printf("  rule %-42s %3d instances, %3d hold\n", r, ruleCount[r][0], ruleCount[r][1])
 	}
+	if os.Getenv("REFCHECK_VERBOSE") != "" {
+		for _, o := range c.Obs {
+			fmt.Printf("  %-9s %s at %s: %s\n", o.Verdict, o.Key, o.Pos, o.Detail)
+		}
+	}
 	reportPath := ""
 	if len(bad) > 0 {
 		os.MkdirAll(filepath.Join(verifDir, "reports"), 0o755)
